@@ -77,7 +77,8 @@ Print Assumptions C06_static_full_parsed.
    (Spec/Pratt.v: values, prefix / suffix / binary operators of every rank,
    `?>` `!>` `|>`, `&&` `||`, `.`, apply forms `<~` `~>` `~~`, `^~`, comma and
    implicit space lists, round brackets `( )` and nested expressions `{ }` to any
-   depth, whitespace; C02_full) is defined: parse accepts,
+   depth, the statement separator `;` at top level and directly inside `{ }`,
+   whitespace; C02_full) is defined: parse accepts,
    and unless the tree is in finding class C06-K1 (else-chain without final
    else), C06-K3 (`^~` with something pending) or C06-K4 (a non-conditional before
    `|>`) -- the chain classes read at the head of a chain -- the tree keeps the
@@ -85,9 +86,11 @@ Print Assumptions C06_static_full_parsed.
    data object, is typable, ends every expression at depth one and is entered at
    (0, 0).  No bound on length or nesting; a nested expression is an out-of-line
    body that must itself keep the discipline and, as an operand, is one value;
+   a sequence `a ; b` evaluates both sides from the same pending state, drops the
+   left value and leaves the right one, so programs of several statements and
+   multi-statement function bodies are covered;
    C06-K2 (an operand position without a value) cannot occur in the fragment. *)
-Theorem C06_balanced_operator_expressions : forall toks R,
-  Pratt.no_separators toks = true -> Pratt.pratt toks = Some R ->
+Theorem C06_balanced_operator_expressions : forall toks R, Pratt.pratt toks = Some R ->
   exists root nodes t,
     parse toks = Ok (root, nodes) /\ Compile.tree_of nodes root = Some t /\
     (~ Known_C06_K1 t -> ~ Known_C06_K3 t -> ~ Known_C06_K4 t ->
@@ -101,8 +104,7 @@ Print Assumptions C06_balanced_operator_expressions.
 (* ... and a conditional is never the left operand of && / || there (the class
    C05-K2 of the well-formedness theorems is outside the fragment): operators
    taken later bind no tighter than the root of what they extend *)
-Theorem C06_operator_expressions_no_K2 : forall toks R,
-  Pratt.no_separators toks = true -> Pratt.pratt toks = Some R ->
+Theorem C06_operator_expressions_no_K2 : forall toks R, Pratt.pratt toks = Some R ->
   exists root nodes t, parse toks = Ok (root, nodes) /\ Compile.tree_of nodes root = Some t /\ drops_arms t = false.
 Proof. exact C06_operator_expressions_no_K2_proof. Qed.
 Print Assumptions C06_operator_expressions_no_K2.
@@ -134,6 +136,26 @@ Example C06_ex_operator_expression_nested :
   let toks := [TT_StartExpression; TT_Value; TT_LessThan; TT_Number; TT_JumpIfTrue; TT_Reapply; TT_Value; TT_PlusSign;
                TT_Number; TT_ElseJump; TT_Value; TT_EndExpression; TT_Apply; TT_Number;
                TT_PlusSign; TT_StartExpression; TT_Number; TT_EndExpression; TT_EmptyApply] in
+  (match Pratt.pratt toks with Some _ => true | None => false end) = true /\
+  match parse toks with
+  | Ok (root, nodes) =>
+    match Compile.tree_of nodes root, build nodes empty_init lit_all (build_fuel nodes) root with
+    | Some t, Ok r =>
+      c06_known_b t = false /\ balanced t = true /\
+      match infer_depths (prog_of_build empty_init r) with Some _ => true | None => false end = true
+    | _, _ => False
+    end
+  | _ => False
+  end.
+Proof. vm_compute. repeat split; reflexivity. Qed.
+
+(* ... with several statements: `x + 1 ; { $ < 3 ?> ^~ $ + 1 ; $ * 2 } <~ 0 ; 7` (22 tokens): a
+   three-statement program whose middle statement applies a two-statement function body *)
+Example C06_ex_operator_expression_statements :
+  let toks := [TT_Identifier; TT_PlusSign; TT_Number; TT_ExpressionSeparator;
+               TT_StartExpression; TT_Value; TT_LessThan; TT_Number; TT_JumpIfTrue; TT_Reapply; TT_Value; TT_PlusSign;
+               TT_Number; TT_ExpressionSeparator; TT_Value; TT_MultiplicationSign; TT_Number; TT_EndExpression;
+               TT_Apply; TT_Number; TT_ExpressionSeparator; TT_Number] in
   (match Pratt.pratt toks with Some _ => true | None => false end) = true /\
   match parse toks with
   | Ok (root, nodes) =>
